@@ -72,7 +72,8 @@ class ToBaseDictLoop(LoopSpec):
         st.assume(z3.Implies(bs.dict_has(c, k0), L.eng.intr.iv(st, bs.dict_get(c, k0)) == bs.dict_get(view, k0)))
 
     def conv(self, st):
-        return to_val(st.loc["converted"])
+        from pyvc.loops import returned_name
+        return to_val(st.loc[returned_name(st.frames[-1])])
 
     def invariant(self, L, st, vis):
         c, k0, j0, view = L.seq.term, L.sk["k0"], L.sk["idx_k0"], L.sk["view"]
@@ -112,7 +113,8 @@ class ToBaseListLoop(LoopSpec):
                              L.eng.intr.iv(st, bs.list_get(c, VInt(i0))) == bs.list_get(view, VInt(i0))))
 
     def conv(self, st):
-        return to_val(st.loc["converted"])
+        from pyvc.loops import returned_name
+        return to_val(st.loc[returned_name(st.frames[-1])])
 
     def invariant(self, L, st, vis):
         i0, view = L.sk["i0"], L.sk["view"]
@@ -248,7 +250,8 @@ class UpdateDictLoop1(LoopSpec):
        otherwise             =>  the slot of k0 is exactly as at entry
        and c and V agree at k0 ([N-VIEW] consistency), references in c are well-formed nodes."""
     def data(self, st):
-        return to_val(st.loc["data"])
+        from pyvc.loops import param_name
+        return to_val(st.loc[param_name(st.frames[-1], 1)])
 
     def prepare(self, L, st):
         D = self.data(st)
@@ -402,7 +405,8 @@ class UpdateDictLoop2(LoopSpec):
 
     def at_exit(self, L, st):
         V, k0 = self_view(st), L.sk["k0"]
-        D = to_val(st.loc["data"])
+        from pyvc.loops import param_name
+        D = to_val(st.loc[param_name(st.frames[-1], 1)])
         PD = bs.plain(D)
         # plain() acts item-wise on mappings [N-VIEW]
         return [k0 == diffkey_eq(V, PD), pyeq_dict_ext(V, PD, k0), core.is_mapping(PD),
@@ -443,7 +447,8 @@ class UpdateListLoop(LoopSpec):
     ordered = True
 
     def data(self, st):
-        return to_val(st.loc["data"])
+        from pyvc.loops import param_name
+        return to_val(st.loc[param_name(st.frames[-1], 1)])
 
     def prepare(self, L, st):
         i0 = smt.fresh("i0", IntS)
